@@ -14,6 +14,9 @@ func UnwrittenGrowthSteps() []Step {
 		{Op: "rtx", Writes: map[uint32]uint64{3: 43}, NewSize: 9, JMode: 1},                       // 6, 7, 8 unwritten, 9 zeros from the pager
 		{Op: "rtx", Writes: map[uint32]uint64{4: 54, 12: 512}, NewSize: 12, JMode: 2, Outcome: 2}, // growth with unwritten pages rolled back after its writes
 		{Op: "rtx", Writes: map[uint32]uint64{7: 67}, NewSize: 9},
+		{Op: "rtx", Writes: map[uint32]uint64{3: 73, 10: 710, 11: 711}, NewSize: 11, Die: true}, // the writer dies; LiteFS rolls the journal back itself
+		{Op: "rtx", Writes: map[uint32]uint64{2: 82}, NewSize: 11, JMode: 2},                    // 10 unwritten - a page the dead transaction had written
+		{Op: "rtx", Writes: map[uint32]uint64{10: 910}, NewSize: 9},
 		{Op: "reopen"},
 		{Op: "rtx", Writes: map[uint32]uint64{2: 72}, NewSize: 3},           // shrink
 		{Op: "rtx", Writes: map[uint32]uint64{7: 87}, NewSize: 7, JMode: 1}, // 4, 5, 6 unwritten, over the region cut off before
